@@ -11,6 +11,26 @@ NOTE = ("Trusted: Lean 4.33 kernel + axioms propext/Classical.choice/Quot.sound 
         "(real code vs compiled model on the same cases); CPython/stdlib semantics re-expressed in the model. ")
 
 CHECKS = {
+    "C03": dict(
+        text="Theorem C03_one_minimal: for EVERY deterministic test f : bytes -> bool (monotone or not), min=1, repeat in {last,always}, no time limit, any max >= 1, repeat-first or not, every well-formed testcase with non-empty atoms, the model of Minimize.reduce ends with f(best minus atom i) = false for every remaining atom i. The follow-up clause is kept as C03_followup_statement (not claimed), refuted by C03_followup_counterexample (decide) and recorded as a finding; C03_followup_partial covers the case where re-splitting reproduces the atoms. Tied to strategies.py by proposal-by-proposal differential execution of the real Minimize.reduce vs the model under every deterministic test for n <= 4 atoms and oracle families on the five real loaders.",
+        note=NOTE + "Non-empty atoms is C06; SHA-512 de-duplication is modelled as equality of contents.",
+        technique="Lean 4 proof (loop invariants: tried-set, last-sweep, termination measure) + differential execution of the real strategy",
+        ref="§4 C03"),
+    "C04": dict(
+        text="Theorem C04_deletion_minimize: for every test, option setting, clock and well-formed testcase, every proposal of the minimize model (tested or de-duplicated) and the final best is the original with reducible atoms deleted (same prefix/suffix, zipped parts a sub-list, identical non-reducible parts), and every proposal is best.rmslice lo hi with lo < hi <= len (the a <= b side condition of C07). minimize-around / minimize-balanced: differential monitor on the real code only until their models' theorems exist (see level_note). Correspondence: every reducible/non-reducible layout up to length 6/7 x 3 strategies x 6 option settings, plus the five real loaders.",
+        note=NOTE + "For minimize-around and minimize-balanced the deletion property currently rests on the monitor over the real code (their Lean models are not yet proved).",
+        technique="Lean 4 proof (eraseRanks sublist/filter lemmas + loop invariant) + exhaustive-layout differential execution",
+        ref="§4 C04"),
+    "C09": dict(
+        text="Theorem C09_bound_minimize: against EVERY oracle (index- and content-dependent), every min, max >= 1, repeat mode, repeat-first, time limit and clock, the minimize model terminates without exhausting its fuel, flags no internal error and runs at most (n+1)*(n+ceil(log2 n)+2) tests (+1 initial check) — by a potential function (len + log2(chunk) + removed)*(n+1) + chunk_end that every iteration decreases. The other strategies' bounds are checked by the monitor on the real code under adversarial verdict scripts (always-yes/no, alternating, complete verdict trees for n <= 4, hill-climbing).",
+        note=NOTE + "around / balanced / collapse-brace and the rewriting strategies: bound checked by the monitor only (no theorem yet); replace-arguments-by-globals non-termination is a recorded finding.",
+        technique="Lean 4 proof (termination measure / potential function) + differential execution + adversarial verdict search",
+        ref="§4 C09"),
+    "C14": dict(
+        text="Theorems C14_pow2 (is_power_of_two(k) iff k = 2^j, all integers), C14_process_args (start-up refuses exactly non-powers of two for the effective min/max; --chunk-size=n == min=max=n, repeat=never), C14_blocks (every minimize candidate = best minus one contiguous non-empty block; chunk size a power of two, <= min(max, lp2 n), non-increasing; block = chunk size unless it is the entire remainder), C14_deadline_minimize (no proposal once the clock passed start+limit). Resweep rule, min clause and the time limit of around/balanced(+move): monitor on the real code.",
+        note=NOTE + "min > max is a recorded finding; --repeat-first-round counts as 'the first sweep removed something' (documented option). time.time() is replaced by a scripted clock.",
+        technique="Lean 4 proof (proposal-log invariant over the minimize loop; arithmetic on bit_length) + differential execution under option/verdict/clock grids",
+        ref="§4 C14"),
     "C01": dict(
         text="Theorems C01_final_is_last_accepted / C01_check_only / C01_every_later_run / C01_best_is_last_accepted over the driver model (Lithium.run + interesting + Strategy.main + ReductionIterator): for EVERY strategy script (proposals, direct file writes, failures) and EVERY outcome sequence (incl. raising), after every run() the file equals what it held during the last accepting test. Tied to reducer.py/strategies.py by differential execution of real Lithium.run() on disk (scripted strategy+test, 1-3 runs per object; 7 real strategies x 5 splitters under complete verdict trees and random verdicts) against the model.",
         note=NOTE + "Candidate construction of the two rewriting strategies is not modelled (iterator-level theorem + monitor).",
